@@ -17,7 +17,7 @@ EXTENDS Naturals, Sequences, FiniteSets, TLC, SequencesExt
 
 CONSTANTS
     N,          \* number of items; keys are 1..N, graph iteration order 1..N
-    EdgeKinds,  \* subset of {"h","w","m","c"}: deps, weak_deps, merge, loop_control
+    EdgeKinds,  \* subset of {"h","w","m","c","b"}: deps, weak_deps, merge, loop_control, deps+weak_deps
     MaxEdges,   \* at most this many non-empty ordered pairs (self loops included)
     DangKinds,  \* kinds a reference to a MISSING item may have: subset of {"h","w","m","c"}
     Emit        \* TRUE: print one OUT line per terminal state
@@ -48,11 +48,12 @@ vars == <<kind, dang, allowU, rev, stack, visiting, vweak, visited, order,
 (* adjacency, in the iteration order the code sees *)
 Ord(S) == IF rev THEN SetToSortSeq(S, LAMBDA a, b: a > b)
                  ELSE SetToSortSeq(S, LAMBDA a, b: a < b)
-Tgt(i, k) == {j \in Nodes : kind[<<i, j>>] = k}
-WeakAdj(i) == Ord(Tgt(i, "w"))
+\* kind "b": the same key is listed in BOTH deps and weak_deps of the item
+Tgt(i, K) == {j \in Nodes : kind[<<i, j>>] \in K}
+WeakAdj(i) == Ord(Tgt(i, {"w", "b"}))
 \* adj: merge entries are added first, then deps (OrderedSet keeps first add)
-HardAdj(i) == Ord(Tgt(i, "m")) \o Ord(Tgt(i, "h"))
-CtrlAdj(i) == Ord(Tgt(i, "c"))
+HardAdj(i) == Ord(Tgt(i, {"m"})) \o Ord(Tgt(i, {"h", "b"}))
+CtrlAdj(i) == Ord(Tgt(i, {"c"}))
 
 Frame(i, fc, wl) == [item |-> i, fc |-> fc, wl |-> wl, phase |-> "enter", idx |-> 1]
 
@@ -181,8 +182,8 @@ Spec == Init /\ [][Next]_vars /\ WF_vars(Next)
 -----------------------------------------------------------------------------
 (* ---- what C20 demands, over the input graph ---- *)
 EdgesOf(K) == {p \in Pairs : kind[p] \in K}
-HardE == EdgesOf({"h", "m"})
-WeakE == EdgesOf({"w"})
+HardE == EdgesOf({"h", "m", "b"})
+WeakE == EdgesOf({"w", "b"})
 CtrlE == EdgesOf({"c"})
 
 TC(E) ==
